@@ -10,8 +10,8 @@
    never hang, no effect on other segments" for files WITHOUT checksums (.bsu, .cmi,
    .sst, .sfm, segmeta.json, pqmr, metrics blocks) is established by fault enumeration
    on the real code (harness c18), not by proof. *)
-From SigM Require Import Base Crc32 ChecksumFile MetaDecoders BufPool.
-From SigP Require Import BaseProofs Crc32Proofs ChecksumFileProofs MetaDecodersProofs BufPoolProofs.
+From SigM Require Import Base Crc32 ChecksumFile MetaDecoders BufPool MetaCache.
+From SigP Require Import BaseProofs Crc32Proofs ChecksumFileProofs MetaDecodersProofs BufPoolProofs MetaCacheProofs.
 Open Scope N_scope.
 
 (* What the writer wrote is read back: every chunking a ++ m ++ b of the data (chunks
@@ -265,3 +265,70 @@ Theorem C18_release_without_forget_refuted :
     In (r1, b) (holds (prun true ops)) /\ In (r2, b) (holds (prun true ops)).
 Proof. exact release_without_forget_refuted. Qed.
 Print Assumptions C18_release_without_forget_refuted.
+
+(* ================= the lazily loaded search metadata of a segment (SigM.MetaCache) =================
+   "queries touching it either still return the original values or report an error for that segment":
+   the block summaries / block search info of a segment are parsed from its .bsu file on first use and
+   kept in the process-wide SegmentMicroIndex.  microreader.ReadBlockSummaries returns the blocks it
+   parsed BEFORE the damage together with its error (read_bsu_p: (partial list, status); read_bsu is
+   the same reader with the partial list dropped).  Accesses: ALoad (GetLoadSsm, memory rebalance),
+   AInfo (GetSearchInfoAndSummary: persistent-query path, bulk timestamp reader, ReadAllRecords,
+   multi-column / record reader), AEvict (memory rebalance), AWrite b (the file on disk becomes b).
+   mrun false = the code; mrun true = the variant that stores the reader's result before looking at
+   its error. *)
+
+(* the reader with its partial result IS the reader of the decoder theorems above *)
+Theorem C18_bsu_reader_partial_result_same_reader : forall (chk : bool) (b : list N),
+  read_bsu chk b = collapse (read_bsu_p chk b).
+Proof. exact read_bsu_p_collapse. Qed.
+Print Assumptions C18_bsu_reader_partial_result_same_reader.
+
+(* for EVERY sequence of accesses (incl. evictions and changes of the file while the process runs),
+   every answer is the COMPLETE, error-free read of a version of the file that was on disk during
+   the run: no access is answered from a partial parse *)
+Theorem C18_no_answer_from_partial_parse : forall (ops : list access) (f : list N) (l : list bsum),
+  In (Ans l) (fst (mrun false f Unloaded ops)) ->
+  exists v, In v (versions f ops) /\ read_bsu true v = DOk l.
+Proof. exact answers_are_complete_reads. Qed.
+Print Assumptions C18_no_answer_from_partial_parse.
+
+(* ... and the cache never holds one *)
+Theorem C18_cache_never_holds_partial_parse : forall (ops : list access) (f : list N) (l : list bsum),
+  snd (snd (mrun false f Unloaded ops)) = Loaded l ->
+  exists v, In v (versions f ops) /\ read_bsu true v = DOk l.
+Proof. exact cache_holds_complete_read. Qed.
+Print Assumptions C18_cache_never_holds_partial_parse.
+
+(* a file its reader refuses is reported on EVERY access, not only the first: whatever the kinds and
+   the order of the accesses, each one answers with the error and nothing is left in the cache *)
+Theorem C18_damaged_file_reported_on_every_access : forall (ops : list access) (f : list N),
+  forallb (fun a => negb (is_write a)) ops = true -> read_bsu true f = DErr ->
+  (forall a, In a (fst (mrun false f Unloaded ops)) -> a = AnsErr \/ a = NoAns) /\
+  snd (mrun false f Unloaded ops) = (f, Unloaded).
+Proof. exact refused_file_reported_on_every_access. Qed.
+Print Assumptions C18_damaged_file_reported_on_every_access.
+
+(* on an unchanged file every access answers exactly what it answers as the first access of a fresh
+   process (the oracle of the harness's access-sequence stream) *)
+Theorem C18_answers_independent_of_access_history : forall (ops : list access) (f : list N),
+  forallb (fun a => negb (is_write a)) ops = true ->
+  fst (mrun false f Unloaded ops) = map (fresh_answer f) ops.
+Proof. exact history_independent. Qed.
+Print Assumptions C18_answers_independent_of_access_history.
+
+(* non-vacuity of the refusal premise: a refused file whose reader hands back complete blocks *)
+Theorem C18_refused_file_with_complete_blocks_exists :
+  exists (f : list N) (l : list bsum), l <> [] /\ read_bsu_p true f = (l, DErr) /\ read_bsu true f = DErr.
+Proof. exact refused_file_with_complete_blocks_exists. Qed.
+Print Assumptions C18_refused_file_with_complete_blocks_exists.
+
+(* REFUTED VARIANT "cache before check": the first access (GetSearchInfoAndSummary) reports the error,
+   the next one (an ordinary search) is answered from the blocks in front of the damage *)
+Theorem C18_cache_before_check_refuted :
+  exists (f : list N) (ops : list access) (l : list bsum),
+    forallb (fun a => negb (is_write a)) ops = true /\ full_parse f = None /\
+    In (Ans l) (fst (mrun true f Unloaded ops)) /\
+    fst (mrun true f Unloaded ops) <> map (fresh_answer f) ops /\
+    fst (mrun false f Unloaded ops) = map (fresh_answer f) ops.
+Proof. exact cache_before_check_refuted. Qed.
+Print Assumptions C18_cache_before_check_refuted.
